@@ -16,6 +16,8 @@ structure DSt where
   reg : Registry := Registry.init
   nDen : Nat := 0
   nCon : Nat := 0
+  /-- deployment layer (C13): current deployment id, stored signing bytes of the open batches, id-aware archive -/
+  dep : Dep := {}
 
 def showTx (t : Tx) : String := s!"{t.id}:{t.sender}:{t.token}:{t.amount}:{t.tax}"
 
@@ -71,7 +73,7 @@ def parseTriples? (s : String) : Option (List (Nat × Nat × Nat)) :=
     | [a, b, c] => do pure (← parseNat? a, ← parseNat? b, ← parseNat? c)
     | _ => none
 
-def step (d : DSt) (args : List String) : DSt × String :=
+def stepCore (d : DSt) (args : List String) : DSt × String :=
   match args with
   | ["reset", n] =>
     match parseNat? n with
@@ -177,5 +179,44 @@ def step (d : DSt) (args : List String) : DSt × String :=
       (d', showState d')
     | _, _, _, _, _ => (d, "bad-op")
   | _ => (d, "bad-op")
+
+def showStored (p : Batch × Nat) : String := s!"{p.1.token}:{p.1.nonce}:{p.1.estimate}:{p.2}"
+
+/-- the lines of the deployment layer (harness/c13_published_test.go); every other line goes to `stepCore`, after which
+    the stored signing bytes are brought up to date (`Dep.sync`) -/
+def step (d : DSt) (args : List String) : DSt × String :=
+  match args with
+  | ["upgrade", n] =>            -- compass upgrade: ActivateChainReferenceID with a new smart-contract unique id
+    match parseNat? n with
+    | some n => ({ d with dep := { d.dep with cur := n } }, "ok")
+    | none => (d, "bad-op")
+  | ["published"] =>             -- BatchRequestByNonce for every open batch: token:nonce:estimate:id of the bytes
+    let l := sortBy (fun a b : Batch × Nat => a.1.token < b.1.token || (a.1.token == b.1.token && a.1.nonce < b.1.nonce)) d.dep.stored
+    (d, if l.isEmpty then "-" else ";".intercalate (l.map showStored))
+  | ["pending", v] =>            -- LastPendingBatchRequestByAddr for validator v
+    match parseNat? v with
+    | some v => (d, match d.dep.pendingFor d.s.batches v with | none => "-" | some p => showStored p)
+    | none => (d, "bad-op")
+  | ["confirm", v, t, n] =>      -- v signs what BatchRequestByNonce publishes and sends MsgConfirmBatch
+    match parseNat? v, parseNat? t, parseNat? n with
+    | some v, some t, some n =>
+      let (dep', r) := d.dep.confirm d.s.batches v t n
+      ({ d with dep := dep' }, showRes r)
+    | _, _, _ => (d, "bad-op")
+  | ["pubevidence", t, n, e, tag, key] =>   -- a signature by `key` over published bytes (id `tag`), replayed as evidence
+    match parseNat? t, parseNat? n, parseNat? e, parseNat? tag, parseNat? key with
+    | some t, some n, some e, some tag, some key =>
+      let (s', r) := evidenceD d.s d.dep (t, n, e, 0) (tag, (t, n, e, 0)) key
+      ({ d with s := s' }, showRes r ++ " jailed=" ++ showNatList (sortNat s'.jailed))
+    | _, _, _, _, _ => (d, "bad-op")
+  | "reset" :: _ =>
+    let (d', out) := stepCore d args
+    ({ d' with dep := {} }, out)
+  | ["reimport"] =>              -- the archive is not part of the genesis state (known finding C13-archive-not-exported)
+    let (d', out) := stepCore d args
+    ({ d' with dep := { d'.dep with arch := [] } }, out)
+  | _ =>
+    let (d', out) := stepCore d args
+    ({ d' with dep := d'.dep.sync d'.s.batches }, out)
 
 end Driver.Bridge
